@@ -250,7 +250,7 @@ CHECKS['C15'] = dict(
                                  'huge pages are simulated (flag stripped, kernel munmap rule applied as measured on this kernel)'],
     exhaustive={'quick': True, 'thorough': True},
     stages=[
-        dict(name='faults', harness=H('c15', ['harness/c15_lifecycle.cpp'], ldflags=FAULT_LD),
+        dict(name='faults', harness=H('c15', ['harness/c15_lifecycle.cpp'], ldflags=FAULT_LD), env={'VERIF_CASE_TIMEOUT': '900'}, replay_timeout=1800,
              plan={'quick': 'faults=all,cycles=160:40', 'thorough': 'faults=all,cycles=5000:100'}),
     ],
 )
